@@ -489,6 +489,16 @@ func main() {
 			}
 		}
 	}
+	// the documented invalid combinations and implications, with every atom as a third option in
+	// every position: no other option may lift a documented rejection or break an implication
+	for _, pr := range [][2]string{{"apache_warning", "apache_adaptor"}, {"apache_adaptor", "apache_warning"}, {"with_field_mask", "with_reflection=false"}, {"with_field_mask", "gen_setter"},
+		{"template=slim", "gen_deep_equal"}, {"gen_deep_equal", "template=slim"}, {"with_field_mask", "with_reflection"}} {
+		for _, a := range atoms {
+			do([]string{a, pr[0], pr[1]})
+			do([]string{pr[0], a, pr[1]})
+			do([]string{pr[0], pr[1], a})
+		}
+	}
 	run.EvalN("C20", traces, traces-1)
 	run.Sample(map[string]any{"options": []string{"code_ref_slim", "code_ref=false", "template=slim"}, "note": "each trace runs HandleOptions on a fresh CodeUtils and the reference model"})
 	run.Sample(map[string]any{"atoms": atoms[:12]})
